@@ -493,6 +493,12 @@ const SYNTH_SMALL: &[&str] = &[
     "const K: f32 = 2.0;\n@compute @workgroup_size(2, 2, 1)\nfn main() {}\n",
 ];
 
+/// Always selected (small): a source whose TEXT is full of what a text-level clean-up of the fallback output
+/// (re-spacing, line splitting, re-escaping) would damage inside the `SOURCE` string literal: punctuation
+/// followed by blanks, runs of blanks, tabs, CR LF, quotes and backslashes in comments, Rust-looking text,
+/// a non-ASCII identifier.
+const TRICKY_SOURCE: &str = "// \"quoted\" \\ back\\slash :: <T> pub fn x ( ) { ; }  'a'\r\nstruct P { a: f32, b: vec2<f32> }   \n@group(0) @binding(0) var<uniform> p: P;\n@compute @workgroup_size(1)\nfn main() {\tvar s = 0.0; for (var i = 0u; i < 4u; i++) { s += p.a; } ; { } var \u{394}t = s; }\n";
+
 fn synth_large(n: usize) -> String {
     let mut s = String::new();
     for i in 0..n {
@@ -655,6 +661,9 @@ fn main() {
                 nl += 1;
             }
         }
+    }
+    if let RefOut::Ok(r) = reference(TRICKY_SOURCE) {
+        selected.push(("synth:tricky-source".to_string(), TRICKY_SOURCE.to_string(), "small", r));
     }
     for (k, src) in SYNTH_SMALL.iter().enumerate() {
         if ns >= n_small {
